@@ -27,7 +27,14 @@ ASSUMPTIONS = ['fill_text layout is not modelled (C07 covers its totality)',
                'with keep_braced_groups an \\item with optional argument is not compared (bracket keeping is undocumented)',
                'symbols outside the 60-entry table of vpl/model/l2t.py are not generated']
 
-POLICIES = [False, 'macros', 'based-on-source', 'default', 'except-in-equations', True]
+POLICIES = [False, 'macros', 'based-on-source', 'default', 'except-in-equations', True,
+            # the documented dictionary form
+            {'between-macro-and-chars': True}, {'between-latex-constructs': True, 'after-comment': True},
+            {'between-macro-and-chars': True, 'between-latex-constructs': False, 'after-comment': True, 'in-equations': True},
+            {'after-comment': True, 'in-equations': False},
+            {'between-latex-constructs': True, 'in-equations': {'between-macro-and-chars': True}},
+            {'between-macro-and-chars': True, 'between-latex-constructs': True, 'in-equations': 'except-in-equations'},
+            'on', 'off']
 MATH_MODES = ['text', 'with-delimiters', 'verbatim', 'remove']
 PROFILE = {'unicode_text': 0.05, 'bracket_text': 0.1, 'verb': 0, 'unknown': 0, 'env': 0.7, 'arg_comment': 0.0, 'arg_ws': 0.2, 'math': 1.5, 'comment': 0.7,
            'specials': 1.0, 'par': 0.5}
@@ -144,7 +151,8 @@ def check_case(case, rec):
             return
         try:
             want = RendererV(v, strict_latex_spaces=opts['strict_latex_spaces'], math_mode=opts['math_mode'],
-                             keep_braced_groups=opts['keep_braced_groups']).render(ast)
+                             keep_braced_groups=opts['keep_braced_groups'],
+                             keep_braced_groups_minlen=opts.get('keep_braced_groups_minlen', 2)).render(ast)
         except L.Unsupported as e:
             rec.monitor('outside_model')
             return
@@ -244,6 +252,9 @@ def run_shard(desc, rec):
                 p, m, kb = combos[ci % len(combos)]
                 ci += 1
                 opts = {'strict_latex_spaces': p, 'math_mode': m, 'keep_braced_groups': kb}
+                if kb and ci % 3 == 0:
+                    opts['keep_braced_groups_minlen'] = [0, 1, 4, 3][(ci // 3) % 4]
+                    rec.monitor('explicit_braced_group_minlen')
                 rec.case()
                 if len(ks - {'W'}) >= 3:
                     rec.nontrivial((src, str(p), m, kb))
